@@ -321,10 +321,13 @@ def check_match_tiling(c, repo):
         for n in sorted(region, key=lambda n: n.id):
             for k in node_calls(n):
                 if stores.store_call(k, f) == (store, 'write'):
-                    ws.append((n, k))
+                    ws.append((n, k, k.args[0], False))
+            # `<spawn>.buffer = E`: the property setter re-creates BOTH stores and writes E into each (its body is checked by D1/D8)
+            if n.kind == 'stmt' and isinstance(n.ast, ast.Assign) and len(n.ast.targets) == 1 and isinstance(n.ast.targets[0], ast.Attribute) \
+                    and n.ast.targets[0].attr == 'buffer' and ct(n.ast.targets[0].value) == 'self.spawn':
+                ws.append((n, n.ast, n.ast.value, True))
         c.need(len(ws) == 1, 'match branch: expected one write to %s, found %d' % (store, len(ws)))
-        n, k = ws[0]
-        arg = k.args[0]
+        n, k, arg, via_setter = ws[0]
         sb2 = slice_bounds(arg)
         ok = sb2 is not None and is_name(arg.value, W) and sb2[1] is None and sb2[2] is None and sb2[0] is not None \
             and lin(sb2[0], f) == end_l
@@ -333,7 +336,7 @@ def check_match_tiling(c, repo):
         # preceded by a fresh rebind in the region
         rb = [m for m in region if m.kind == 'stmt' and stmt_assigns_attr(m.ast, store) is not None
               and stores.is_fresh_store(m.ast.value)]
-        okd = bool(rb) and g.dominated_by(n, set(rb))[0]
+        okd = via_setter or (bool(rb) and g.dominated_by(n, set(rb))[0])
         c.check(okd, f, k, '%s is re-created empty before the rest is written' % store, kind='path', tag='fresh-' + store)
     # ---- before = pending[0 : P - (W - start)]
     bn = asg['before'][0]
@@ -366,7 +369,9 @@ def check_match_tiling(c, repo):
         c.bad(f, bn.ast, 'before.hi must equal len(pending) - len(window) + searcher.start',
               witness='found %r, wanted %r' % (got, want), kind='alg', tag='before-hi')
     # before is computed from _before before _before is rebound
-    rb = [m for m in region if m.kind == 'stmt' and stmt_assigns_attr(m.ast, '_before') is not None]
+    rb = [m for m in region if m.kind == 'stmt' and (stmt_assigns_attr(m.ast, '_before') is not None or
+                                                     (isinstance(m.ast, ast.Assign) and len(m.ast.targets) == 1 and isinstance(m.ast.targets[0], ast.Attribute)
+                                                      and m.ast.targets[0].attr == 'buffer' and ct(m.ast.targets[0].value) == 'self.spawn'))]
     src_nodes = [m for m in g.nodes if m.kind == 'stmt' and any(stores.store_call(k, f) == ('_before', 'getvalue')
                                                                 for k in node_calls(m))]
     for m in rb:
@@ -529,6 +534,8 @@ MUTANTS = [
 ]
 
 PRESERVING = [
+    ('rest-via-setter', 'expect', '            spawn._buffer = spawn.buffer_type()\n            spawn._buffer.write(window[searcher.end:])\n            before = spawn._before.getvalue()\n            spawn.before = before[\n                0:len(before) - (len(window) - searcher.start)]\n            spawn._before = spawn.buffer_type()\n            spawn._before.write(window[searcher.end:])\n            spawn.after = window[searcher.start:searcher.end]\n', '            before = spawn._before.getvalue()\n            spawn.before = before[\n                0:len(before) - (len(window) - searcher.start)]\n            spawn.after = window[searcher.start:searcher.end]\n            spawn.buffer = window[searcher.end:]\n'),
+    ('clamp-min', 'expect', '        if freshlen > len(window):\n            freshlen = len(window)\n', '        freshlen = min(freshlen, len(window))\n'),
     ('rename-local', 'expect', "        freshlen = len(data)\n        spawn._before.write(data)", "        freshlen = len(data)\n        pending = spawn._before\n        pending.write(data)"),
     ('temp-rest', 'expect', "            spawn._buffer = spawn.buffer_type()\n            spawn._buffer.write(window[searcher.end:])\n            before = spawn._before.getvalue()",
      "            spawn._buffer = spawn.buffer_type()\n            spawn._buffer.write(window[searcher.end:])\n            before = spawn._before.getvalue()\n            unused_len = len(before)"),
